@@ -49,6 +49,12 @@ def build_cases(tier, rng):
             out.append((f"verify {s} pure bytes:{fpk0.hex()} {hx(fmsg)} - {fsig0.hex()}", 'forgery with hints at coefficients 0 and 255 of every polynomial', ('verify', s, fpk0, fmsg, fsig0, b'', 'pure'), ok0))
             for tag, sg in fam.hint_section_mutations(rng, p, fsig0):
                 out.append((f"verify {s} pure bytes:{fpk0.hex()} {hx(fmsg)} - {sg.hex()}", 'malformed hint (forged, index 0 present): ' + tag, ('verify', s, fpk0, fmsg, sg, b'', 'pure'), False))
+        # steered forgeries: one coefficient of w' = A z exactly on a Decompose / UseHint corner, hint bit set there
+        srho, steered = fam.steer_forgeries(rng, s)
+        for tag, z, h in steered:
+            fpk, fsig, valid = fam.forge(s, srho, z, h, fmsg, b'', 'pure')
+            if fsig is not None:
+                out.append((f"verify {s} pure bytes:{fpk.hex()} {hx(fmsg)} - {fsig.hex()}", 'steered forgery: ' + tag, ('verify', s, fpk, fmsg, fsig, b'', 'pure'), valid))
         for tag, z, h in fam.forgery_family(rng, s, n_random=6 if tier == 'thorough' else 1):
             md = rng.choice(('pure', 'sha256', 'internal'))
             fpk, fsig, valid = fam.forge(s, rho, z, h, fmsg, b'c', md)
